@@ -483,6 +483,10 @@ func (g *Gen) genC20(n int) error {
 	cfg.minDocs = 2
 	cfg.syn = true
 	b := g.randBatch(g.fresh("b"), cfg)
+	// at least one thesaurus with a term
+	b.Docs[0].Plain = false
+	b.Docs[0].Fields = append(b.Docs[0].Fields, FieldSpec{Kind: "syn", Name: "thesA",
+		Defs: []SynDef{{LHS: []byte("p"), RHS: [][]byte{[]byte("q"), []byte("r")}}}})
 	g.emitBatch(b)
 	s := g.fresh("s")
 	g.emit("build %s %s", s, b.Name)
